@@ -386,6 +386,16 @@ func (w *csWorld) runWord(b Beh, cl *csCell) []J {
 			if hv {
 				o["rtoks"] = cl.toksOfJSON(v)
 			}
+		case "GetterRead":
+			// the application answers the read through a getter installed for the duration of this read
+			tok := cl.toks[s.Tok]
+			cl.c.OnValueGet(func() interface{} { return tok })
+			h, hv, v, st, n := w.getOne(cl)
+			cl.c.OnValueGet(nil)
+			o["http"], o["hasvalue"], o["status"], o["n"] = h, hv, st, n
+			if hv {
+				o["rtoks"] = cl.toksOfJSON(v)
+			}
 		case "AccRead":
 			h, found, hv, v := w.accValue(cl)
 			o["http"], o["hasvalue"] = h, hv
